@@ -18,7 +18,7 @@ VOLS = [0, 10, 45, 70, 120, 148.25]
 MAXV = 50
 TRIPLES = list(itertools.product(SRC, DST, VOLS))
 
-GS = {"plate": Geo("S", "plate", 3, 2), "trough": Geo("S", "trough", 3, 2)}
+GS = {"plate": Geo("S", "plate", 3, 2), "trough": Geo("S", "trough", 3, 2), "gtrough": Geo("S", "trough", 3, 2)}
 GD = {"plate": Geo("D", "plate", 2, 3), "trough": Geo("D", "trough", 2, 3)}
 
 OPTIONS = [
@@ -34,6 +34,10 @@ OPTIONS = [
 
 
 def build(src_kind, dst_kind):
+    if src_kind == "gtrough":
+        s = rt.Labware("S", 1, 2, min_volume=0, max_volume=1e6, initial_volumes=[[10000, 20000]], virtual_rows=3)
+        d = rt.Labware("D", 2, 3, min_volume=0, max_volume=1e6)
+        return s, d
     if src_kind == "plate":
         s = rt.Labware("S", 3, 2, min_volume=0, max_volume=1e6, initial_volumes=10000)
     else:
@@ -69,6 +73,9 @@ class Harness(cm.BaseB):
         out = []
         n = 2 if tier == "quick" else 3
         for dev in ("EvoWorklist", "FluentWorklist"):
+            out.append({"k": "lists", "dev": dev, "src": "gtrough", "len": 1, "first": None})
+            for t0 in range(0, len(TRIPLES), 5):
+                out.append({"k": "lists", "dev": dev, "src": "gtrough", "len": 2, "first": t0})
             for sk in ("plate", "trough"):
                 out.append({"k": "lists", "dev": dev, "src": sk, "len": 1, "first": None})
                 for t0 in range(len(TRIPLES)):
@@ -271,7 +278,7 @@ class Harness(cm.BaseB):
         # (4) break discipline per column group of the (reference) partition side
         pb = case["pb"]
         if pb == "auto":
-            pb = "destination" if case["src"] == "trough" and dst_kind != "trough" else "source"
+            pb = "destination" if case["src"] in ("trough", "gtrough") and dst_kind != "trough" else "source"
         side = 0 if pb == "source" else 1
         ids = list(zip(*b))
         groups = {}
